@@ -181,6 +181,14 @@ def stack_scalar(R, outs, shape, sname):
         return None
 
 
+def observe(R, got):
+    """Feed the sequence output into the determinism digest of the case."""
+    try:
+        R.observe(np.asarray(got, dtype=float))
+    except Exception:   # noqa -- an uncomparable output has already been reported by compare()
+        pass
+
+
 def dedupe(R):
     """One violation per signature and case (the first), so that one defect does not flood the report."""
     seen, keep = set(), []
@@ -219,12 +227,15 @@ def run_one(case, seed, R):
             outs = [R.call(fsca, n, *par, x.copy(), sig=f'{sname}:raises') for n in ns]
             want = stack_scalar(R, outs, shape, sname)
             if want is None:
+                if exc is not None:
+                    R.violation(f'{name}:raises', exc)
                 continue
             R.checks += 1
             if got is FAILED:
                 ok, msg = False, exc
             else:
                 ok, bad, msg = compare(got, want, eps)
+                observe(R, got)
             if shape == (5,):
                 ref_ok[dtype] = ok
             if not ok:
@@ -294,11 +305,15 @@ def run_two(case, seed, R):
                     outs = [o if o is FAILED else np.stack([np.asarray(o[0], dtype=float), np.asarray(o[1], dtype=float)]) for o in outs]
                 except Exception as e:   # noqa
                     R.violation(f'{sname}:shape', f'{sname} did not return a (dr, dt) pair of equal shapes: {type(e).__name__}: {e}')
+                    if exc is not None:
+                        R.violation(f'{name}:raises', exc)
                     continue
                 want = stack_scalar(R, outs, (2, *shape), sname)
             else:
                 want = stack_scalar(R, outs, shape, sname)
             if want is None:
+                if exc is not None:
+                    R.violation(f'{name}:raises', exc)
                 continue
             R.checks += 1
             bad = None
@@ -308,6 +323,7 @@ def run_two(case, seed, R):
                 tmax = float(np.max(np.abs(b))) if b.size else 0.0
                 cond = None if name == 'xy_seq' else [1.0 + abs(p[1]) * tmax for p in nms]
                 ok, bad, msg = compare(got, want, eps, cond)
+                observe(R, got)
             is_ref = shape == ((5,) if not grid_only else (3, 4))
             if is_ref:
                 ref_ok[dtype] = ok
@@ -360,10 +376,11 @@ def subsets(B):
     return out
 
 
-def ordered_lists(pool, L):
+def ordered_lists(pool, L, pool4=()):
     out = []
     for k in range(1, L + 1):
         out.extend([list(p) for p in t] for t in itertools.product(pool, repeat=k))
+    out.extend([list(p) for p in t] for t in itertools.product(pool4, repeat=4))
     srt = sorted(pool, key=lambda p: (p[0], p[1]))
     for full in (srt, srt[::-1], srt[len(srt) // 2:] + srt[:len(srt) // 2]):
         out.append([list(p) for p in full])
@@ -385,12 +402,13 @@ def plan(tier, seed):
             'oracle = scalar-order function stacked; non-trivial when an order >= 1 is requested', reset=reset_poly_caches, chunk=CHUNK))
     for name, (sname, kwname, variants, pool, extra) in TWO.items():
         pl = pool if tier == 'quick' else pool + extra
-        lists = ordered_lists(pl, 3)
+        lists = ordered_lists(pl, 3, () if tier == 'quick' else pool)
         cases = [{'f': name, 'var': v, 'nms': nms} for nms in lists for v in variants]
         units.append(ScopeUnit(
             'seq2_' + name, cases, run_two,
-            f'{name} vs {sname}: EVERY ordered list (repeats allowed) of length <= 3 from the pool {pl} plus the whole pool sorted, reversed and rotated '
-            f'({len(lists)} lists) x {kwname}={variants}; inside each case every coordinate shape {shapes_txt}'
+            f'{name} vs {sname}: EVERY ordered list (repeats allowed) of length <= 3 from the pool {pl} plus the whole pool sorted, reversed and rotated'
+            + ('' if tier == 'quick' else f', plus every ordered list of length 4 from {pool}') +
+            f' ({len(lists)} lists) x {kwname}={variants}; inside each case every coordinate shape {shapes_txt}'
             + (' (cartesian_grid=True: the four 2-D shapes as true meshgrids)' if name == 'xy_seq' else '')
             + '; non-trivial when a pair other than (0,0) is requested', reset=reset_poly_caches, chunk=CHUNK))
     return units
